@@ -20,6 +20,9 @@ pub fn run(tier: Tier) -> i32 {
         run_inputs(&mut run, &b, NONTRIVIAL, &oracle);
     }
     crate::recipe_inputs::run_recipe_inputs(&mut run, &b, NONTRIVIAL, &oracle);
+    if tier == Tier::Thorough && !run.failed() {
+        crate::fuzzleg::run_fuzz_leg(&mut run, 16_000_000, &oracle);
+    }
     run.finish()
 }
 
